@@ -87,7 +87,8 @@ enum OpKind
   OpClose = 5,      // a = session (among open ones)
   OpBurst = 6,      // a = how many following data ops are issued without waiting
   OpAgain = 7,      // a = script selector
-  OpIdle = 8        // a = bit mask of peers whose traffic keeps flowing while the others go idle
+  OpIdle = 8,       // a = bit mask of peers whose traffic keeps flowing while the others go idle
+  OpAlt = 9         // a,b = two peers sending alternately back to back (c: rounds, listener) without waiting in between
 };
 struct Op
 {
@@ -101,6 +102,7 @@ struct Plan
   std::size_t maxWq = 1024;
   std::size_t maxSessions = 0; // UDP session cap (0 = unlimited)
   unsigned nListeners = 1, nPeers = 1;
+  unsigned v6Mask = 0; // bit i: listener i is bound to '::' (IPv6 dual stack) instead of 127.0.0.1
   bool idle = false; // idleTimeout 1 s / gcInterval 1 s
   std::uint32_t salt = 0;
   std::vector<Op> ops;
@@ -110,13 +112,14 @@ std::string describe(const Plan &p)
 {
   pbt::Fmt f;
   f << "UDP " << (p.et ? "ET" : "LT") << (p.batching ? " batching" : "") << " readChunk=" << p.readChunk << " maxWq=" << p.maxWq << " maxSessions=" << p.maxSessions
-    << " listeners=" << p.nListeners << " peers=" << p.nPeers << (p.idle ? " idleTimeout=1s" : "") << " salt=" << p.salt << " ops=[";
-  static const char *nm[] = {"dgram", "dgramConn", "send", "via", "connect", "close", "burst", "eagain", "idle"};
+    << " listeners=" << p.nListeners << (p.v6Mask ? " v6mask=" + std::to_string(p.v6Mask) : std::string()) << " peers=" << p.nPeers << (p.idle ? " idleTimeout=1s" : "") << " salt=" << p.salt << " ops=[";
+  static const char *nm[] = {"dgram", "dgramConn", "send", "via", "connect", "close", "burst", "eagain", "idle", "alt"};
   for (std::size_t i = 0; i < p.ops.size(); ++i)
   {
     const Op &o = p.ops[i];
     f << (i ? " " : "") << nm[o.kind] << "(" << o.a;
-    if (o.kind == OpDgram || o.kind == OpVia) f << "," << o.b;
+    if (o.kind == OpDgram || o.kind == OpVia || o.kind == OpAlt) f << "," << o.b;
+    if (o.kind == OpAlt) f << "," << o.c;
     if (o.kind == OpDgram || o.kind == OpDgramConn || o.kind == OpSend) f << ",s" << o.c;
     f << ")";
   }
@@ -188,7 +191,10 @@ void oncePerProcess()
 Addr toAddr(const std::string &host, std::uint16_t port)
 {
   in_addr a{};
-  if (::inet_pton(AF_INET, host.c_str(), &a) != 1) return Addr{0, port};
+  // a dual-stack ('::') listener reports IPv4 sources as v4-mapped addresses
+  std::string h = host;
+  if (h.size() > 7 && (h.compare(0, 7, "::ffff:") == 0 || h.compare(0, 7, "::FFFF:") == 0)) h = h.substr(7);
+  if (::inet_pton(AF_INET, h.c_str(), &a) != 1) return Addr{0, port};
   return Addr{ntohl(a.s_addr), port};
 }
 
@@ -210,7 +216,8 @@ struct Exec
   struct Lst
   {
     net::ListenerId id = 0;
-    Addr addr;
+    Addr addr;       // where the (IPv4) raw peers send to
+    bool v6 = false; // bound to '::' (dual stack): sources are seen as ::ffff:a.b.c.d
   };
   std::vector<Lst> lst;
 
@@ -312,11 +319,12 @@ struct Exec
     if (t->start().isErr()) return false;
     for (unsigned i = 0; i < p.nListeners; ++i)
     {
-      auto lr = t->addListener("127.0.0.1", 0, net::TlsMode::None);
+      const bool v6 = (p.v6Mask >> i) & 1;
+      auto lr = t->addListener(v6 ? "::" : "127.0.0.1", 0, net::TlsMode::None);
       if (lr.isErr()) return false;
       auto la = t->getListenerAddress(lr.value());
       if (la.port == 0) return false;
-      lst.push_back(Lst{lr.value(), toAddr(la.host, la.port)});
+      lst.push_back(Lst{lr.value(), v6 ? Addr{rawpeer::kLoopback, la.port} : toAddr(la.host, la.port), v6});
     }
     // raw peers: P0 127.0.0.1:p  P1 127.0.0.2:p (same port)  P2 127.0.0.1:q  P3 127.0.0.3:r
     static const std::uint32_t ips[] = {0x7f000001u, 0x7f000002u, 0x7f000001u, 0x7f000003u};
@@ -852,7 +860,7 @@ struct Exec
       case OpVia:
       {
         int li = static_cast<int>(o.a % p.nListeners), pi = static_cast<int>(o.b % p.nPeers);
-        auto r = t->connectViaListener(lst[li].id, peers[pi].addr.host(), peers[pi].addr.port);
+        auto r = t->connectViaListener(lst[li].id, (lst[li].v6 ? "::ffff:" : "") + peers[pi].addr.host(), peers[pi].addr.port);
         if (r.isOk())
         {
           Sess s;
@@ -927,6 +935,24 @@ struct Exec
         c01net::setDgramWriteScript(s);
         break;
       }
+      case OpAlt:
+      {
+        // two peers (preferably the pair that shares a port) send alternately, back to back
+        int pa = static_cast<int>(o.a % p.nPeers), pb = static_cast<int>(o.b % p.nPeers);
+        if (p.nPeers >= 2 && (o.a & 1)) pa = 0, pb = 1;
+        int li = static_cast<int>((o.c >> 3) % p.nListeners), rounds = 2 + static_cast<int>(o.c % 3);
+        bool saved = inBurst;
+        inBurst = true;
+        for (int r = 0; r < rounds; ++r)
+          for (int who : {pa, pb})
+          {
+            int st = issueDgram(who, li, 2 + 16 * (r + 1));
+            if (st >= 0) pending.push_back(static_cast<unsigned>(st));
+          }
+        inBurst = saved;
+        burstBatch = true;
+        break;
+      }
       case OpIdle:
       {
         // ~2.4 s during which the peers in the mask keep sending to listener 0, the others are silent
@@ -995,6 +1021,7 @@ struct Exec
       std::fprintf(stderr, "LOST%s in %s\n", l.c_str(), describe(p).c_str());
     }
     if (foreignSeen) c.label("foreign traffic on an ephemeral port ignored");
+    if (p.v6Mask) c.label(delivered ? "dual-stack '::' listener, datagrams delivered" : "dual-stack '::' listener");
     if (p.maxSessions) c.label("maxSessions: " + std::to_string(p.maxSessions));
     if (capRefused) c.label("new peer refused at the session cap (documented, not flagged)");
     if (silencedProbes) c.label("silence probe run after a missed paced datagram");
@@ -1031,6 +1058,7 @@ Plan drawPlan(pbt::Src &src, bool idle)
   p.maxSessions = src.oneOf<std::size_t>({0, 0, 0, 0, 1, 2, 2, 3, 3, 4});
   p.nListeners = static_cast<unsigned>(1 + src.weighted({3, 2}));
   p.nPeers = static_cast<unsigned>(1 + src.weighted({2, 3, 2, 2}));
+  p.v6Mask = static_cast<unsigned>(src.weighted({5, 2, 2, 1})); // 0: all IPv4, 1/2/3: listener 0 / 1 / both on '::'
   p.salt = static_cast<std::uint32_t>(src.range(0, 0x7fffffff));
   auto rows = src.rows(idle ? 24 : 48, 4, 0, (1 << 20) - 1);
   bool idleDone = false;
@@ -1038,8 +1066,8 @@ Plan drawPlan(pbt::Src &src, bool idle)
   {
     Op o;
     static const int kinds[] = {OpDgram, OpDgram, OpDgram, OpDgram, OpDgram, OpDgramConn, OpSend, OpSend, OpSend, OpVia, OpVia,
-                                OpConnect, OpClose, OpClose, OpBurst, OpAgain};
-    o.kind = kinds[r[0] % 16];
+                                OpConnect, OpClose, OpClose, OpBurst, OpAgain, OpAlt};
+    o.kind = kinds[r[0] % 17];
     o.a = r[1];
     o.b = r[2];
     o.c = r[3];
@@ -1141,6 +1169,22 @@ PBT_REGRESSION(session_cap_refuses_new_peer_only)
   p.salt = 9;
   p.ops = {Op{OpDgram, 0, 0, 3}, Op{OpDgram, 1, 0, 3}, Op{OpDgram, 2, 0, 3}, Op{OpDgram, 0, 0, 5}, Op{OpVia, 0, 2, 0}, Op{OpClose, 1, 0, 0},
            Op{OpDgram, 2, 0, 3}, Op{OpDgram, 0, 0, 5}, Op{OpDgram, 2, 0, 6}};
+  Exec ex(p, c);
+  ex.run();
+}
+
+// '::' (dual-stack) listener: 127.0.0.1:Q and 127.0.0.2:Q arrive as ::ffff:127.0.0.1 / ::ffff:127.0.0.2 with the
+// same port - they agree in the first 16 bytes of sockaddr_in6 (family, port, flowinfo, upper 64 address bits).
+// Seeded change C06-D compared only those bytes to reuse the previous datagram's peer key.
+PBT_REGRESSION(dual_stack_listener_peers_sharing_a_port_alternate)
+{
+  Plan p;
+  p.nListeners = 1;
+  p.nPeers = 2;
+  p.v6Mask = 1;
+  p.salt = 10;
+  p.ops = {Op{OpDgram, 0, 0, 3}, Op{OpDgram, 1, 0, 3}, Op{OpDgram, 0, 0, 5}, Op{OpDgram, 1, 0, 7}, Op{OpAlt, 1, 1, 2}, Op{OpSend, 1, 0, 3},
+           Op{OpSend, 0, 0, 3}, Op{OpVia, 0, 1, 0}, Op{OpDgram, 1, 0, 3}};
   Exec ex(p, c);
   ex.run();
 }
